@@ -34,7 +34,7 @@ LEVEL = "exploration"
 RULE = ("token: generated phone strings (digit strings of length 1-20, and arbitrary unicode text without surrogates); "
         "encoding/encryption: generated parameter lists of 0-12 (name, value) pairs, names [a-z_]+, values str over full "
         "unicode, bytes over all byte values, or int (negative too); fresh recipient key pair per case; request classes: "
-        "generated phone/cc/mcc/mnc configs in a scratch profile, checked as built and as sent through WARequest.send() into a recording "
+        "generated phone/cc/mcc/mnc configs (account ids with whitespace bytes at the edges among them) in a scratch profile, with 0-3 generated parameters added by the caller through addParam (str and bytes, whitespace at the edges), checked as built and as sent through WARequest.send() into a recording "
         "HTTPS connection (the blob is opened with the private half of a key pair the harness substitutes for the server's). Non-trivial = some value needs an escape, contains a "
         "byte >= 0x80 or one of '-', '_', '~', '&', '=' (token cases: the number is not plain ASCII digits or is longer "
         "than 15). Distinct = distinct canonical JSON.")
